@@ -96,7 +96,7 @@ def case_strategy(draw):
     for _ in range(ne):
         ev.append([draw(st.sampled_from(['in', 'in', 'in', 'knot', 'end', 'out'])), 0.5 * (1 + draw(uf)), draw(st.integers(0, 40))])
     return dict(x=x, nord=nord, opt=opt, kw=kw, ev=ev, coeff_seed=[draw(uf) for _ in range(8)], sort_eval=draw(st.sampled_from([False, False, True])),
-                ev_dtype=draw(st.sampled_from(['f8', 'f8', 'f4'])), many=draw(st.integers(0, 400)) == 0)
+                ev_dtype=draw(st.sampled_from(['f8', 'f8', 'f4', 'i8'])), many=draw(st.integers(0, 400)) == 0)
 
 
 def body(case):
@@ -151,7 +151,12 @@ def body(case):
     if case['sort_eval']:
         ev = np.sort(ev)
     f4 = case.get('ev_dtype', 'f8') == 'f4'
-    if f4:
+    if case.get('ev_dtype') == 'i8':
+        # whole-number evaluation points held in an integer array (pixel indices)
+        evi = np.round(ev).astype('i8')
+        ev = evi.astype('f8')
+        y, m = call(b.value, evi.copy())
+    elif f4:
         # evaluation points stored in single precision (the knots stay double): the reference is the spline at exactly those points
         ev32 = ev.astype('f4')
         ev = ev32.astype('f8')
